@@ -85,16 +85,12 @@ def classify(lines, idx, what, dom):
         if "base=broken" in what:
             # the base-level PSET::simplify_using_context_assign (replayed with the public API just
             # before the operation) broke its documented contract on one of the calls of this run
-            if "not-an-enlargement" in what:
-                tags.append("base_simplify_not_enlargement")
-            if "not-meet-preserving" in what:
-                tags.append("base_simplify_not_meet_preserving")
-            if "false-on-nonempty-meet" in what:
-                tags.append("base_simplify_false_on_nonempty_meet")
-                if dom in ("D",):
-                    tags.append("bds_base_simplify_false_on_nonempty_meet")
-                if dom in ("B",):
-                    tags.append("box_base_simplify_false_on_nonempty_meet")
+            fam = {"C": "poly", "N": "poly", "D": "bds", "B": "box"}.get(dom, dom)
+            for key, name in (("not-an-enlargement", "not_enlargement"), ("not-meet-preserving", "not_meet_preserving"),
+                              ("false-on-nonempty-meet", "false_on_nonempty_meet")):
+                if key in what:
+                    tags.append("base_simplify_" + name)
+                    tags.append(fam + "_base_simplify_" + name)
         else:
             tags.append("base_ok")
     elif what.startswith("relation_with(constraint)"):
